@@ -200,6 +200,44 @@ impl Machine {
     }
 }
 
+/// The same rule with every marker `m` renamed to `mq`, in its declaration and in every `@m` reference (longest name first).
+pub fn rename_markers(rule: &RuleSpec) -> RuleSpec {
+    let mut names: Vec<String> = rule.markers.iter().map(|m| m.name.clone()).collect();
+    names.sort_by_key(|n| std::cmp::Reverse(n.len()));
+    fn walk(v: &mut serde_json::Value, names: &[String]) {
+        match v {
+            serde_json::Value::String(s) if s.contains('@') => {
+                let mut out = String::new();
+                let mut rest = s.as_str();
+                while let Some(i) = rest.find('@') {
+                    out.push_str(&rest[..=i]);
+                    rest = &rest[i + 1..];
+                    if let Some(n) = names.iter().find(|n| rest.starts_with(n.as_str())) {
+                        out.push_str(n);
+                        out.push('q');
+                        rest = &rest[n.len()..];
+                    }
+                }
+                out.push_str(rest);
+                *s = out;
+            }
+            serde_json::Value::Array(a) => a.iter_mut().for_each(|x| walk(x, names)),
+            serde_json::Value::Object(o) => o.iter_mut().for_each(|(_, x)| walk(x, names)),
+            _ => {}
+        }
+    }
+    let mut v = serde_json::to_value(rule).unwrap();
+    walk(&mut v, &names);
+    if let Some(ms) = v.get_mut("markers").and_then(|m| m.as_array_mut()) {
+        for m in ms {
+            if let Some(n) = m.get("name").and_then(|n| n.as_str()).map(|n| format!("{n}q")) {
+                m["name"] = serde_json::Value::String(n);
+            }
+        }
+    }
+    serde_json::from_value(v).unwrap()
+}
+
 fn slot_ver() -> impl Strategy<Value = (u8, u8)> {
     (0..SLOTS, 0..VERSIONS)
 }
@@ -219,8 +257,16 @@ pub fn op_strategy() -> BoxedStrategy<HOp> {
 pub fn hist_case_strategy(max_ops: usize) -> BoxedStrategy<HistCase> {
     let opts = RuleOpts { actions: false, dynamic_bias: true, flags: false, sampling: false, max_rank: 3 };
     let n = (SLOTS as usize) * (VERSIONS as usize);
-    (config_strategy(), rules_strategy(opts, n, n), prop::collection::vec(op_strategy(), 1..=max_ops), prop::collection::vec(request_choice_strategy(), 36..=44))
-        .prop_map(move |(config, mut pool, ops, choices)| {
+    (config_strategy(), rules_strategy(opts, n, n), prop::collection::vec(op_strategy(), 1..=max_ops), prop::collection::vec(request_choice_strategy(), 36..=44), prop::collection::vec(0u8..10, SLOTS as usize))
+        .prop_map(move |(config, mut pool, ops, choices, renamed)| {
+            // round 4: in three slots out of ten, version 1 is version 0 with its markers renamed - the same matching expression,
+            // other capture names (an update that a cache keyed on the matching expression would not notice)
+            for (slot, r) in renamed.iter().enumerate() {
+                let base = slot * VERSIONS as usize;
+                if *r < 3 && !pool[base].markers.is_empty() {
+                    pool[base + 1] = rename_markers(&pool[base]);
+                }
+            }
             for (i, r) in pool.iter_mut().enumerate() {
                 r.id = slot_id((i / VERSIONS as usize) as u8);
                 r.target_hash = Some(format!("ver{}", i % VERSIONS as usize));
